@@ -191,7 +191,7 @@ Section Laws.
       Forall (fun y => prio_le P now y x) (firstn i (ordered L P now offered)) /\
       Forall (fun y => prio_le P now x y) (skipn (S i) (ordered L P now offered)).
   Proof.
-    unfold schedule_full. intros Hok Hts H Hn Hd.
+    intros Hok Hts H Hn Hd. apply schedule_full_run in H. destruct H as [H _].
     destruct (run_unplaced_no_fit L P e now _ _ ds cf i x H Hn Hd) as [V [R1 [F _]]].
     destruct (run_stage L P e now _ _ ds cf i x H Hn) as [V' [d [R1' [_ R2]]]].
     rewrite R1 in R1'. inversion R1'; subst V'.
@@ -214,7 +214,7 @@ Section Laws.
     cok c -> tasks_ok offered -> schedule_full L P e pre now c offered = Ok (ds, cf) ->
     cok cf /\ cle (virtual L P pre c) cf.
   Proof.
-    intros Hok Hts H. unfold schedule_full in H.
+    intros Hok Hts H. apply schedule_full_run in H. destruct H as [H _].
     assert (tasks_ok (ordered L P now offered)) as Hto
       by (eapply tasks_ok_perm; [apply (sort_by_perm (fun t : task => p_key P now (t_attrs t)) offered)|exact Hts]).
     destruct (run_le P e now _ _ _ _ (virtual_ok P pre c Hok) Hto H). auto.
@@ -420,7 +420,7 @@ Section Contract.
     Contract offered (virtual L P pre c) now ds /\ replay L offered (virtual L P pre c) ds = Some cf /\
     map dec_task ds = map (@t_id L) (ordered L P now offered).
   Proof.
-    intros NDt NDc H. unfold schedule_full in H.
+    intros NDt NDc H. apply schedule_full_run in H. destruct H as [H _].
     pose proof (nodup_functional offered NDt) as F.
     pose proof (sort_by_perm (fun t : task => p_key P now (t_attrs t)) offered) as Perm.
     fold (ordered L P now offered) in Perm.
@@ -461,7 +461,7 @@ Section Admission.
     exists f d, min_runtime L (t_strats x) = Some f /\ nth_error ds i = Some d /\ dec_task d = t_id x /\
                 (hopeless now (t_attrs x) f = true <-> d = DCancel (t_id x)).
   Proof.
-    intros [HA HC] H Hn. unfold schedule_full in H.
+    intros [HA HC] H Hn. apply schedule_full_run in H. destruct H as [H _].
     destruct (run_stage L P true now _ _ ds cf i x H Hn) as [V [d [_ [Hd R2]]]].
     apply run_cons in R2. destruct R2 as [d' [ds' [c' [E [_ [Hid Hk]]]]]]. inversion E; subst d' ds'.
     unfold admission in Hk. rewrite HA in Hk. cbn [andb] in Hk.
@@ -519,7 +519,7 @@ Section Admission.
   Proof.
     intros DA ND H. apply c12_check_iff. apply Forall_forall. intros d Hd.
     apply In_nth_error in Hd. destruct Hd as [i Hd].
-    pose proof (run_tasks L P true now _ _ ds cf H) as Ht.
+    pose proof (run_tasks L P true now _ _ ds cf (proj1 (schedule_full_run L P true pre now c offered ds cf H))) as Ht.
     assert (exists x, nth_error (ordered L P now offered) i = Some x) as [x Hx].
     { destruct (nth_error (ordered L P now offered) i) as [x|] eqn:E; [eauto|].
       apply nth_error_None in E. assert (length ds = length (ordered L P now offered)) as Hl
@@ -548,4 +548,29 @@ Proof.
     + intros s' [<-|Hs']; [lia|]. specialize (Hmin s' Hs'). lia.
   - inversion H; subst. destruct r as [|s1 r']; [|cbn in M; destruct (min_runtime L r'); discriminate].
     split; [exists s; split; [left; reflexivity|reflexivity]|]. intros s' [<-|[]]. lia.
+Qed.
+
+(* with every task offered once, no task is placed twice: the already-placed guard of place_task never fires *)
+Lemma placed_on_in t pid ds : placed_on t pid ds = true -> In t (map dec_task ds).
+Proof.
+  induction ds as [|d r IH]; cbn [placed_on map]; [discriminate|].
+  destruct d as [t'|t' pid' k time|t']; cbn [dec_task].
+  - intros X. right. auto.
+  - intros X. apply orb_true_iff in X. destruct X as [X|X]; [left; lia|right; auto].
+  - intros X. right. auto.
+Qed.
+Lemma place_twice_nodup ds : NoDup (map dec_task ds) -> place_twice ds = false.
+Proof.
+  induction ds as [|d r IH]; cbn [place_twice map]; intros H; [reflexivity|].
+  inversion H as [|? ? Hn Hr]; subst. destruct d as [t|t pid k time|t]; cbn [dec_task] in *; auto.
+  rewrite (IH Hr). destruct (placed_on t pid r) eqn:E; [|reflexivity]. exfalso. apply Hn. eapply placed_on_in; exact E.
+Qed.
+Lemma schedule_full_nodup L P e pre now (c : cluster L) offered ds cf :
+  NoDup (map (@t_id L) offered) ->
+  run L P e now (virtual L P pre c) (ordered L P now offered) = Ok (ds, cf) ->
+  schedule_full L P e pre now c offered = Ok (ds, cf).
+Proof.
+  intros ND H. unfold schedule_full. rewrite H. cbn [bind fst]. rewrite place_twice_nodup; [reflexivity|].
+  rewrite (run_tasks L P e now _ _ _ _ H).
+  eapply Permutation_NoDup; [apply Permutation_map; apply (sort_by_perm (fun t : task L => p_key P now (t_attrs t)) offered)|exact ND].
 Qed.
